@@ -82,7 +82,7 @@ def zeroBasic : Kind → S
 
 /-- the zero value of a type -/
 def zeroVal (env : TEnv) : Nat → Ty → Val
-  | 0, _ => .nil
+  | 0, t => (match under env t with | .struct _ => .struct [] | _ => .nil)   -- out of fuel: still a struct for a struct type
   | fuel+1, t =>
     match under env t with
     | .basic k => .basic (zeroBasic k)
@@ -144,6 +144,9 @@ def setField (v : Val) (name : S) (x : Val) : Val :=
     if fs.any (fun p => p.1 == name) then .struct (fs.map (fun (n, old) => if n == name then (n, x) else (n, old)))
     else .struct (fs ++ [(name, x)])
   | _ => .struct [(name, x)]      -- (for `absent`: a write into a slot that does not exist; the caller panics)
+
+/-- a struct-typed location always holds a struct: an unknown previous value counts as the struct without fields -/
+def normStruct (old : Val) : Val := match old with | .nil => .struct [] | o => o
 
 def Val.isAbsent : Val → Bool
   | .absent => true
@@ -289,7 +292,8 @@ mutual
         | _ => stuckE "map expected"
       | .structc fields isUpdate =>
         let _ := isUpdate
-        evalFields p fuel fr fields src old
+        -- a struct-typed location always holds a struct: an unknown previous value counts as the struct without fields
+        evalFields p fuel fr fields src (normStruct old)
       | .enumc cases dflt =>
         let act := match src with
           | .basic r => ((cases.find? (fun (x : S × ConstVal × EnumAction) => constRepr x.2.1 == r)).map (fun (x : S × ConstVal × EnumAction) => x.2.2)).getD dflt
